@@ -266,6 +266,7 @@ def run_case(args):
         for c, (probs, returned) in explore(run, pre=[], backend='inproc', ints=ints, decide_timeout=5, max_paths=20000):
             res['paths'] += 1
             res['queries'] += c.decision_queries
+            res['solver_seconds'] = res.get('solver_seconds', 0.0) + c.decision_seconds
             res['returned' if returned else 'raised'] += 1
             if probs and len(res['bad']) < 3:
                 v, model = c.model()
@@ -427,6 +428,7 @@ def run_restart_case(args):
         for c, probs in explore(run, pre=[], backend='inproc', ints=ints, decide_timeout=5, max_paths=50000):
             res['paths'] += 1
             res['queries'] += c.decision_queries
+            res['solver_seconds'] = res.get('solver_seconds', 0.0) + c.decision_seconds
             if probs and len(res['bad']) < 3:
                 v, model = c.model()
                 res['bad'].append(dict(problems=sorted(set(probs)), model={k: int(x) for k, x in model.items() if x is not None}))
@@ -546,6 +548,7 @@ def main(report, tier, seed, workers, calibrate=False):
                       group=group or r['name'].split(' order')[0],
                       detail=dict(paths=r['paths'], queries=r['queries'], raised=r.get('raised'), returned=r.get('returned')))
         solver.STATS.queries += r['queries']
+        solver.STATS.seconds += r.get('solver_seconds', 0.0)
         solver.STATS.by_backend['z3py-inproc'] = solver.STATS.by_backend.get('z3py-inproc', 0) + r['queries']
         for b in r['bad'][:1]:
             rp = replay(tier, r['idx'], b['model'])
